@@ -92,3 +92,59 @@ contract('Envelope.copy#body', qual='Envelope.copy', module=M, props=['C16', 'C2
                   '        fresh(result.recipients) and seq(result.recipients) == seq(self.recipients))',
                   'seq(self.recipients) == old(seq(self.recipients))'],
          modifies=['fresh'])
+
+
+# ---------------------------------------------------------------------------- find_outside_quotes (C06: address extraction)
+# Specification (RFC 5321 quoted-string): scanning from start_i, a double quote opens a quoted region; inside it a
+# backslash escapes the next byte (so \\" does not close the region) and an unescaped double quote closes it.  QS(h, s, i)
+# is the scanner state after the bytes h[s:i]: 0 outside quotes, 1 inside, 2 inside right after a backslash.  The
+# function returns the first position >= start_i that is outside quotes and where `needle` starts, or -1.
+MSV = 'slimta/smtp/server.py'
+_QS = z3.Function('qs_state', z3.StringSort(), z3.IntSort(), z3.IntSort(), z3.IntSort())
+
+
+def _qs(st, args):
+    h, s, i = args[0].z, args[1].z, args[2].z
+    key = ('$qs_ax', h.get_id(), s.get_id())
+    if key not in st.ghost and st.qdepth == 0:
+        st.ghost[key] = (h, s)
+        st.nfresh += 1
+        k = z3.Int('k!qs%d' % st.nfresh)
+        c = z3.SubString(h, k, 1)
+        prev = _QS(h, s, k)
+        nxt = z3.If(prev == 0, z3.If(c == z3.StringVal('"'), 1, 0),
+                    z3.If(prev == 2, 1,
+                          z3.If(c == z3.StringVal('\\'), 2, z3.If(c == z3.StringVal('"'), 0, 1))))
+        st.assume(_QS(h, s, s) == 0)
+        st.assume(z3.ForAll([k], z3.Implies(z3.And(s <= k, k < z3.Length(h)), _QS(h, s, k + 1) == nxt),
+                            patterns=[_QS(h, s, k)]))
+        st.assume(z3.ForAll([k], z3.And(0 <= _QS(h, s, k), _QS(h, s, k) <= 2), patterns=[_QS(h, s, k)]))
+    return Val(T.INT, _QS(h, s, i))
+
+
+calls.SPECFUNS['qs'] = _qs
+
+contract('find_outside_quotes#spec', qual='find_outside_quotes', module=MSV, props=['C06'],
+         params={'haystack': 'Bytes', 'needle': 'Bytes', 'start_i': 'Int', 'quotes': 'Bytes'},
+         defaults={'start_i': '0', 'quotes': 'b\'"\''}, returns='Int',
+         requires=['0 <= start_i and start_i <= len(haystack)', 'len(needle) >= 1', 'quotes == b\'"\''],
+         ensures=[
+             # a hit is outside quotes, really is the needle, and is the FIRST such position
+             'implies(result >= 0, start_i <= result and result + len(needle) <= len(haystack) '
+             '        and qs(haystack, start_i, result) == 0 and substr(haystack, result, len(needle)) == needle)',
+             'implies(result >= 0, forall(range(start_i, result), lambda j: not (qs(haystack, start_i, j) == 0 '
+             '        and substr(haystack, j, len(needle)) == needle)))',
+             'implies(result < 0, result == -1 and forall(range(start_i, len(haystack) - len(needle) + 1), lambda j: '
+             '        not (qs(haystack, start_i, j) == 0 and substr(haystack, j, len(needle)) == needle)))'],
+         modifies=[],
+         locals={'quoted': 'Opt[Int]', 'escaped': 'Bool'},
+         loops={0: dict(inv=['h_len == len(haystack) and n_len == len(needle)',
+                             # the scanner state of the code is the specified one
+                             '(quoted is None) == (qs(haystack, start_i, start_i + _k) == 0)',
+                             'implies(quoted is not None, cast(quoted, Int) == 34)',
+                             'implies(quoted is not None, escaped == (qs(haystack, start_i, start_i + _k) == 2))',
+                             'implies(quoted is None, not escaped)',
+                             'forall(range(start_i, start_i + _k), lambda j: not (qs(haystack, start_i, j) == 0 '
+                             '       and substr(haystack, j, len(needle)) == needle))']),
+                # the inner scan over the quote characters (only b'"' here): no quote character matched so far
+                1: dict(inv=['quoted is None', 'not escaped', 'implies(_k >= 1, substr(haystack, i, 1) != b\'"\')'])})
